@@ -165,6 +165,47 @@ func DegenerateShapes(r *R) []Degenerate {
 		f.Services = []*ir.Service{s}
 		add("wide_message_many_methods", f)
 	}
+	// 12b. many services in one file, many files with one service each in one invocation
+	for _, n := range []int{9, 12, 70} {
+		f := mk(fmt.Sprintf("manysvc%d", n), fmt.Sprintf("d.manysvc%d", n))
+		f.Messages = []*ir.Message{{Name: "Q", Fields: []*ir.Field{{Name: "v", Number: 1, Kind: "string"}}}}
+		for i := 0; i < n; i++ {
+			f.Services = append(f.Services, &ir.Service{Name: fmt.Sprintf("Svc%d", i), BasePath: fmt.Sprintf("/s%d", i), Methods: []*ir.Method{
+				{Name: "Do", Input: "." + f.Package + ".Q", Output: "." + f.Package + ".Q", Config: &ir.HTTPConfig{Path: "/do", Method: "POST"}}}})
+		}
+		add(fmt.Sprintf("%d_services_in_one_file", n), f)
+	}
+	{
+		var files []*ir.File
+		var names []string
+		for i := 0; i < 24; i++ {
+			f := mk(fmt.Sprintf("manyfiles%d", i), fmt.Sprintf("d.manyfiles%d", i))
+			f.Messages = []*ir.Message{{Name: "Q", Fields: []*ir.Field{{Name: "v", Number: 1, Kind: "string"}}}}
+			f.Services = []*ir.Service{svcFor(f.Package, "Q", "Q")}
+			files = append(files, f)
+			names = append(names, f.Name)
+		}
+		out = append(out, Degenerate{"24_files_generated_together", &ir.Request{Files: files, Generate: names}})
+	}
+	// 12c. flatten cycles: a flattened field of the message's own type, two messages flattening each other
+	{
+		f := mk("flatself", "d.flatself")
+		f.Messages = []*ir.Message{
+			{Name: "Category", Fields: []*ir.Field{{Name: "name", Number: 1, Kind: "string"},
+				{Name: "parent", Number: 2, Kind: "message", TypeName: ".d.flatself.Category", Ann: ir.Ann{Flatten: bp(true), FlattenPrefix: sp("parent_")}}}},
+		}
+		f.Services = []*ir.Service{svcFor("d.flatself", "Category", "Category")}
+		add("flatten_of_own_type", f)
+	}
+	{
+		f := mk("flatmutual", "d.flatmutual")
+		f.Messages = []*ir.Message{
+			{Name: "A", Fields: []*ir.Field{{Name: "id", Number: 1, Kind: "string"}, {Name: "b", Number: 2, Kind: "message", TypeName: ".d.flatmutual.B", Ann: ir.Ann{Flatten: bp(true), FlattenPrefix: sp("b_")}}}},
+			{Name: "B", Fields: []*ir.Field{{Name: "tag", Number: 1, Kind: "string"}, {Name: "a", Number: 2, Kind: "message", TypeName: ".d.flatmutual.A", Ann: ir.Ann{Flatten: bp(true), FlattenPrefix: sp("a_")}}}},
+		}
+		f.Services = []*ir.Service{svcFor("d.flatmutual", "A", "B")}
+		add("flatten_mutual_cycle", f)
+	}
 	// 13. recursive annotated types: flatten child that refers back, unwrap of self
 	{
 		f := mk("annrec", "d.annrec")
